@@ -112,6 +112,27 @@ def absRxLoop (P : Par) (R : Nat) : AL → List Fr → Option (AL × Bool)
       else if timeDriven al'.tx then some (al', true)
       else absRxLoop P R al' rest
 
+/-- the state machine part of `_process_tx` (mailbox empty, N_Bs checked) -/
+def absFsm (P : Par) (R : Nat) (al : AL) : Option (AL × Option Fr × Bool) :=
+  match al.tx with
+  | .I =>
+    if P.n = 1 then some ({ al with tx := .D, done := true }, some (.dat 0), false)
+    else some ({ al with tx := .W 1 R }, some (.dat 0), false)
+  | .W _ _ => some (al, none, false)
+  | .T k j r =>
+    if P.z || decide (r < R) then
+      if k + 1 = P.n then some ({ al with tx := .D, done := true }, some (.dat k), false)
+      else if P.bs' ≠ 0 ∧ j + 1 ≥ P.bs' then some ({ al with tx := .W (k + 1) R }, some (.dat k), true)
+      else some ({ al with tx := .T (k + 1) (j + 1) R }, some (.dat k), false)
+    else some (al, none, false)
+  | .D => some (al, none, false)
+
+/-- the mailbox / N_Bs part of `_process_tx`: the transmit phase the state machine runs on -/
+def absMail (P : Par) (R : Nat) (al : AL) : Option TxA :=
+  match al.tx with
+  | .W k r => if R - r ≤ P.kFc then (if al.fc then some (.T k 0 R) else some (.W k r)) else none
+  | t => if al.fc then none else some t
+
 /-- `_process_tx`: new state, frame handed out, `immediate_rx_required` -/
 def absTx (P : Par) (R : Nat) (al : AL) : Option (AL × Option Fr × Bool) :=
   if al.pend then
@@ -119,26 +140,9 @@ def absTx (P : Par) (R : Nat) (al : AL) : Option (AL × Option Fr × Bool) :=
     | .S i _ => some ({ al with pend := false, rx := .S i (some R) }, some .fc, true)
     | _ => none
   else
-    let tx? : Option TxA :=
-      match al.tx with
-      | .W k r => if R - r ≤ P.kFc then (if al.fc then some (.T k 0 R) else some (.W k r)) else none
-      | t => if al.fc then none else some t
-    match tx? with
+    match absMail P R al with
     | none => none
-    | some tx =>
-      let al := { al with fc := false, tx := tx }
-      match tx with
-      | .I =>
-        if P.n = 1 then some ({ al with tx := .D, done := true }, some (.dat 0), false)
-        else some ({ al with tx := .W 1 R }, some (.dat 0), false)
-      | .W _ _ => some (al, none, false)
-      | .T k j r =>
-        if P.z || decide (r < R) then
-          if k + 1 = P.n then some ({ al with tx := .D, done := true }, some (.dat k), false)
-          else if P.bs' ≠ 0 ∧ j + 1 ≥ P.bs' then some ({ al with tx := .W (k + 1) R }, some (.dat k), true)
-          else some ({ al with tx := .T (k + 1) (j + 1) R }, some (.dat k), false)
-        else some (al, none, false)
-      | .D => some (al, none, false)
+    | some tx => absFsm P R { al with fc := false, tx := tx }
 
 /-- what `txfn` does with the frame handed out -/
 def pushOut (al : AL) : Option Fr → AL
@@ -540,6 +544,647 @@ theorem rx_ff (hS : SideOk S) (h : Rep S R al s) (hrx : al.rx = .I) (hn : S.par.
   · show ({ start := some s.now, timeout := s.cfg.tCf } : Timer) = _
     rw [h.now, h.base.cfg]; rfl
 
+/-- the reception session of the representation, in the vocabulary of Proofs/Rx.lean -/
+theorem Rep.session (hS : SideOk S) (h : Rep S R al s) {i : Nat} {t : Option Nat} (hrx : al.rx = .S i t) :
+    Rx.RxSession (TxCfg.of S.c' S.a') s S.p' i ∧ NeedsFF (TxCfg.of S.c' S.a') S.p'.length ∧
+      S.car' (i + 1) < S.p'.length ∧ s.rxQueue = [] ∧ (i + 1 < S.par.n') := by
+  have hr := h.rx
+  rw [hrx] at hr
+  obtain ⟨h1, h2, h3, h4, h5, h6, h7, h8, -, hff⟩ := hr
+  have hvt := valid_of S.c' S.a' hS.va'
+  have hc := carried_eq (TxCfg.of S.c' S.a') S.p'.length (i + 1) (by omega) h4
+  simp only [Nat.add_sub_cancel] at hc
+  refine ⟨⟨h1, h2, ?_, ?_, h5, h6, h7⟩, hff, h4, h8, ?_⟩
+  · rw [← hc]; exact h3
+  · rw [← hc]; exact h4
+  · exact (lt_nFrames_iff _ hvt S.p' hff (i + 1) (by omega)).mpr h4
+
+theorem inMsg_cf (hff : NeedsFF (TxCfg.of S.c' S.a') S.p'.length) (i : Nat) :
+    (S.inMsg (.dat (i + 1))).data = cfData (TxCfg.of S.c' S.a') S.p' (i + 1) := by
+  show (dataMsg S.c' S.a' S.p' (i + 1)).data = _
+  unfold dataMsg; rw [if_pos hff]
+  show frameData (TxCfg.of S.c' S.a') S.p' (i + 1) = _
+  simp only [frameData, Nat.add_one_ne_zero, if_false]
+
+/-- the peer's last Consecutive Frame: the payload is delivered -/
+theorem rx_last (hS : SideOk S) (h : Rep S R al s) {i : Nat} {t : Option Nat} (hrx : al.rx = .S i t)
+    (hp : al.pend = false) (hf : al.fc = false) (hn : i + 2 = S.par.n') :
+    ∃ s', s.processRx (S.inMsg (.dat (i + 1))) = (s', false, true) ∧ Rep S R { al with rx := .D } s' := by
+  obtain ⟨hs, hff, hmore, hq, -⟩ := h.session hS hrx
+  have hvt := valid_of S.c' S.a' hS.va'
+  have hlast : carried (TxCfg.of S.c' S.a') S.p'.length (i + 1 + 1) = S.p'.length :=
+    (last_iff _ hvt S.p' hff (i + 1) (by omega) hmore).mpr hn
+  obtain ⟨pad, hm⟩ := cfData_last S.c' S.a' S.p' (i + 1) (by omega) hmore hlast
+  simp only [Nat.add_sub_cancel] at hm
+  have hpre : (TxCfg.of S.c' S.a').pre.length = s.addr.rx.rxPrefixSize := prefix_eq hS h
+  refine ⟨_, Rx.last_cf_step_eq (TxCfg.of S.c' S.a') s _ S.p' pad i hs hpre ((inMsg_cf hff i).trans hm), ?_⟩
+  refine ⟨h.base' _ rfl rfl rfl rfl rfl, h.tx, ?_, ?_, hp.symm, h.pstat, h.inbox, h.now, ?_, ?_, ?_⟩
+  · show RxRep S .D _
+    refine ⟨rfl, ?_, ?_⟩
+    · show s.rxQueue ++ [S.p'] = [S.p']; rw [hq]; rfl
+    · show ({ start := none, timeout := s.cfg.tCf } : Timer) = _; rw [h.base.cfg]
+  · show (none : Option FcFrame) = _; rw [hf]; rfl
+  · show txsOf (.deliver S.p' :: s.log) = _; rw [txsOf_deliver]; exact h.out
+  · exact NoErr_cons h.noerr (by intro t e h; cases h)
+  · intro hd; exact List.mem_cons_of_mem _ (h.done hd)
+
+/-- a Consecutive Frame of the peer that does not end the message: the session advances; at the end of a block a
+    ContinueToSend is requested and the N_Cr timer stopped -/
+theorem rx_cf (hS : SideOk S) (h : Rep S R al s) {i : Nat} {t : Option Nat} (hrx : al.rx = .S i t)
+    (hp : al.pend = false) (hn : i + 2 ≠ S.par.n') :
+    ∃ s', s.processRx (S.inMsg (.dat (i + 1))) =
+        (s', decide (0 < S.par.bs ∧ (i + 1) % S.par.bs = 0), false) ∧
+      Rep S R (if 0 < S.par.bs ∧ (i + 1) % S.par.bs = 0 then { al with rx := .S (i + 1) none, pend := true }
+               else { al with rx := .S (i + 1) (some R) }) s' := by
+  obtain ⟨hs, hff, hmore, hq, hlt⟩ := h.session hS hrx
+  have hvt := valid_of S.c' S.a' hS.va'
+  have hdl := txDl_fix _ hvt
+  have hmore2 : carried (TxCfg.of S.c' S.a') S.p'.length (i + 2) < S.p'.length :=
+    (lt_nFrames_iff _ hvt S.p' hff (i + 2) (by omega)).mp (by show i + 2 < S.par.n'; omega)
+  have hc := carried_eq (TxCfg.of S.c' S.a') S.p'.length (i + 2) (by omega) hmore2
+  simp only [show i + 2 - 1 = i + 1 from rfl] at hc
+  have hm := cfData_full S.c' S.a' S.p' hS.va' (i + 1) (by omega) hmore2
+  simp only [Nat.add_sub_cancel] at hm
+  have hpre : (TxCfg.of S.c' S.a').pre.length = s.addr.rx.rxPrefixSize := prefix_eq hS h
+  have hstep := Rx.cf_step_eq (TxCfg.of S.c' S.a') s (S.inMsg (.dat (i + 1))) S.p' i hs hpre
+    (by have := hvt.pre; omega) hdl.2.1 (by rw [← hc]; exact hmore2) ((inMsg_cf hff i).trans hm)
+  rw [← hc, h.base.cfg] at hstep
+  have hpf : s.pendingFc = false := h.pend.trans hp
+  by_cases hb : 0 < S.c.blocksize ∧ (i + 1) % S.c.blocksize = 0
+  · have hb' : 0 < S.par.bs ∧ (i + 1) % S.par.bs = 0 := hb
+    rw [if_pos hb] at hstep
+    rw [if_pos hb']
+    refine ⟨_, (by rw [decide_eq_true hb']; exact hstep), ?_⟩
+    refine ⟨h.base' _ h.base.cfg.symm rfl rfl rfl rfl, h.tx, ?_, h.fc, rfl, fun _ => rfl, h.inbox, h.now, h.out, h.noerr, h.done⟩
+    show RxRep S (.S (i + 1) none) _
+    exact ⟨hs.state, hs.frameLen, rfl, hmore2, rfl, rfl, hs.rxdl, hq, rfl, hff⟩
+  · have hb' : ¬ (0 < S.par.bs ∧ (i + 1) % S.par.bs = 0) := hb
+    rw [if_neg hb, hpf] at hstep
+    rw [if_neg hb']
+    refine ⟨_, (by rw [decide_eq_false hb']; exact hstep), ?_⟩
+    refine ⟨h.base' _ h.base.cfg.symm rfl rfl rfl rfl, h.tx, ?_, h.fc, hp.symm, h.pstat, h.inbox, h.now, h.out, h.noerr, h.done⟩
+    show RxRep S (.S (i + 1) (some R)) _
+    refine ⟨hs.state, hs.frameLen, rfl, hmore2, rfl, rfl, hs.rxdl, hq, ?_, hff⟩
+    show ({ start := some s.now, timeout := S.c.tCf } : Timer) = _
+    rw [h.now]; rfl
+
+/-- `_process_rx` on a state the abstract machine describes, without the arrival bookkeeping -/
+theorem rx_core (hS : SideOk S) (h : Rep S R al s) (it : Fr) (al' : AL) (imm : Bool)
+    (ha : absRx S.par R al it = some (al', imm)) :
+    ∃ s' fr, s.processRx (S.inMsg it) = (s', imm, fr) ∧ Rep S R al' s' := by
+  unfold absRx at ha
+  split at ha
+  · cases ha
+  split at ha
+  · cases ha
+  next hp =>
+  have hp : al.pend = false := by simpa using hp
+  split at ha
+  · cases ha
+  next hf =>
+  have hf : al.fc = false := by simpa using hf
+  cases it with
+  | fc =>
+    simp only [Option.some.injEq, Prod.mk.injEq] at ha
+    obtain ⟨rfl, rfl⟩ := ha
+    obtain ⟨s', h1, h2⟩ := rx_fc hS h
+    exact ⟨s', false, h1, h2⟩
+  | dat k =>
+    simp only [] at ha
+    split at ha
+    · next hrx =>
+      split at ha
+      · cases ha
+      next hk =>
+      have hk : k = 0 := by simpa using hk
+      subst hk
+      split at ha
+      · next hn =>
+        simp only [Option.some.injEq, Prod.mk.injEq] at ha
+        obtain ⟨rfl, rfl⟩ := ha
+        obtain ⟨s', h1, h2⟩ := rx_sf hS h hrx hp hn
+        exact ⟨s', true, h1, h2⟩
+      · next hn =>
+        simp only [Option.some.injEq, Prod.mk.injEq] at ha
+        obtain ⟨rfl, rfl⟩ := ha
+        obtain ⟨s', h1, h2⟩ := rx_ff hS h hrx hn
+        exact ⟨s', false, h1, h2⟩
+    · next i t hrx =>
+      split at ha
+      · cases ha
+      next hk =>
+      have hk : k = i + 1 := by simpa using hk
+      subst hk
+      split at ha
+      · next hn =>
+        simp only [Option.some.injEq, Prod.mk.injEq] at ha
+        obtain ⟨rfl, rfl⟩ := ha
+        obtain ⟨s', h1, h2⟩ := rx_last hS h hrx hp hf hn
+        exact ⟨s', true, h1, h2⟩
+      · next hn =>
+        obtain ⟨s', h1, h2⟩ := rx_cf hS h hrx hp hn
+        split at ha
+        · next hb =>
+          simp only [Option.some.injEq, Prod.mk.injEq] at ha
+          obtain ⟨rfl, rfl⟩ := ha
+          rw [if_pos hb] at h2
+          rw [decide_eq_true hb] at h1
+          exact ⟨s', false, h1, h2⟩
+        · next hb =>
+          simp only [Option.some.injEq, Prod.mk.injEq] at ha
+          obtain ⟨rfl, rfl⟩ := ha
+          rw [if_neg hb] at h2
+          rw [decide_eq_false hb] at h1
+          exact ⟨s', false, h1, h2⟩
+    · cases ha
+
+/-- **one `_process_rx` call of the rx loop is one abstract step** -/
+theorem rx_sim (hS : SideOk S) (h : Rep S R al s) (it : Fr) (rest : List Fr) (al' : AL) (imm : Bool)
+    (ha : absRx S.par R { al with inbox := rest } it = some (al', imm)) :
+    ∃ s' fr, (arrived s 0 (S.inMsg it) (rest.map S.inEntry)).processRx (S.inMsg it) = (s', imm, fr) ∧
+      Rep S R al' s' := by
+  have hc : cfOk S.par R al.rx = true := by
+    cases hc' : cfOk S.par R al.rx with
+    | true => rfl
+    | false =>
+      unfold absRx at ha
+      simp [hc'] at ha
+  rw [arrived_eq hS h hc]
+  exact rx_core hS (h.arrive (S.inMsg it) rest) it al' imm ha
+
 end rx
+
+/-! ## `_process_tx`, case by case -/
+
+section tx
+variable {S : Side} {R : Nat} {al : AL} {s : State}
+
+theorem allowed_eq (h : Rep S R al s) : Fc.allowedNow s = noLimit := by
+  unfold Fc.allowedNow; rw [h.base.rl]; rfl
+
+theorem finish_eq (s : State) (out : Option CanMsg) (imm : Bool) (hexc : s.exc = none)
+    (hrl : s.rl = { enabled := false }) : Fc.finish (s, out, imm) = (s, out, imm) := by
+  unfold Fc.finish
+  have hi : ∀ n d, s.rl.inform n d = s.rl := by intro n d; rw [hrl]; rfl
+  have h0 : s.exc.isSome = false := by rw [hexc]; rfl
+  cases out with
+  | none => simp only [h0, Bool.false_eq_true, if_false]
+  | some m => simp only [h0, Bool.false_eq_true, if_false, hi]
+
+theorem Rep.exc0 (h : Rep S R al s) : s.exc.isSome = false := by rw [h.base.exc]; rfl
+theorem Rep.inform (h : Rep S R al s) (n d : Nat) : s.rl.inform n d = s.rl := by rw [h.base.rl]; rfl
+
+/-- what the tx loop does with a frame handed out: it is passed to `txfn` (logged) -/
+theorem Rep.emitTx (h : Rep S R al s) (f : Fr) :
+    Rep S R { al with out := al.out ++ [f] } (s.emit (.tx s.now (S.outMsg f))) :=
+  ⟨⟨h.base.cfg, h.base.addr, h.base.standby, h.base.exc, h.base.rl⟩, h.tx, h.rx, h.fc, h.pend, h.pstat, h.inbox, h.now,
+    by show txsOf (.tx s.now (S.outMsg f) :: s.log) = _; rw [txsOf_tx, h.out, List.map_append]; rfl,
+    NoErr_cons h.noerr (by intro t e h; cases h), fun hd => List.mem_cons_of_mem _ (h.done hd)⟩
+
+/-- a Flow Control requested by the reception side goes out first; the N_Cr timer is restarted -/
+theorem tx_pend (hS : SideOk S) (h : Rep S R al s) (hp : al.pend = true) {i : Nat} {t : Option Nat}
+    (hrx : al.rx = .S i t) :
+    ∃ s', s.processTx = (s', some (S.outMsg .fc), true) ∧ s'.exc = none ∧
+      Rep S R { al with pend := false, rx := .S i (some R) } s' := by
+  have hm : makeFlowControl s.cfg s.addr 0 = some (fcMsg S.c S.a) := by
+    rw [h.base.cfg, h.base.addr]; exact own_fc_made S hS
+  have hstep := Rx.processTx_sends_fc s 0 (fcMsg S.c S.a) (h.pend.trans hp) (h.pstat hp)
+    (by rw [h.base.cfg]; exact hS.listen) hm
+  simp only [if_true] at hstep
+  refine ⟨_, hstep, h.base.exc, ?_⟩
+  have hr := h.rx
+  rw [hrx] at hr
+  obtain ⟨h1, h2, h3, h4, h5, h6, h7, h8, -, hff⟩ := hr
+  refine ⟨h.base' _ rfl rfl rfl rfl rfl, h.tx, ?_, h.fc, rfl, (fun h => by cases h), h.inbox, h.now, h.out, h.noerr, h.done⟩
+  show RxRep S (.S i (some R)) _
+  refine ⟨h1, h2, h3, h4, h5, h6, h7, h8, ?_, hff⟩
+  show ({ start := some s.now, timeout := s.cfg.tCf } : Timer) = _
+  rw [h.now, h.base.cfg]; rfl
+
+/-- IDLE, empty queue: nothing happens -/
+theorem tx_D (h : Rep S R al s) (htx : al.tx = .D) (hp : al.pend = false) (hf : al.fc = false) :
+    s.processTx = (s, none, false) := by
+  have ht := h.tx
+  rw [htx] at ht
+  obtain ⟨h1, h2, h3, -⟩ := ht
+  have h3' : s.timerFc = _ := h3
+  exact processTx_idle_gen s h1 h2 (by rw [h.fc, hf]; rfl) (h.pend.trans hp) (by rw [h3']) h.base.exc
+
+theorem fc_not_timedOut (hS : SideOk S) (h : Rep S R al s) {r : Nat} (hr : R - r ≤ S.kFc)
+    (ht : s.timerFc = { start := some (r * S.dt), timeout := S.c.tFc }) : s.timerFc.timedOut s.now = false := by
+  rw [ht, h.now]
+  exact timedOut_running _ _ _ (round_le R r S.kFc S.dt _ hr hS.tFc) hS.tFc0
+
+/-- WAIT_FC, nothing in the mailbox, N_Bs not expired: nothing happens -/
+theorem tx_W (hS : SideOk S) (h : Rep S R al s) {k r : Nat} (htx : al.tx = .W k r) (hp : al.pend = false)
+    (hf : al.fc = false) (hr : R - r ≤ S.kFc) : s.processTx = (s, none, false) := by
+  have ht := h.tx
+  rw [htx] at ht
+  obtain ⟨h1, h2, h3, h4, h5, -⟩ := ht
+  exact Fc.processTx_waitFc_quiet s _ h2 (h.pend.trans hp) (by rw [h.fc, hf]; rfl)
+    (fc_not_timedOut hS h hr h3) h4 (reqAt_depleted S.c S.id S.p _ h5)
+
+theorem outMsg_ff (hff : NeedsFF (TxCfg.of S.c S.a) S.p.length) (k : Nat) : S.outMsg (.dat k) = wireA S.c S.a S.p k := by
+  show dataMsg S.c S.a S.p k = _
+  unfold dataMsg; rw [if_pos hff]
+
+/-- IDLE with the request at the head of the queue (segmented message): the First Frame goes out -/
+theorem tx_first (hS : SideOk S) (h : Rep S R al s) (htx : al.tx = .I) (hp : al.pend = false) (hf : al.fc = false)
+    (hn : S.par.n ≠ 1) :
+    ∃ s', s.processTx = (s', some (S.outMsg (.dat 0)), false) ∧ s'.exc = none ∧
+      Rep S R { al with tx := .W 1 R } s' := by
+  have hff : NeedsFF (TxCfg.of S.c S.a) S.p.length := (needsFF_iff S.c S.a S.p hS.va).mpr hn
+  have hvt := valid_of S.c S.a hS.va
+  have hfr := reqFor_fresh S.c S.id S.p
+  have hlt := ffRoom_lt _ _ hff hvt
+  have ht := h.tx
+  rw [htx] at ht
+  obtain ⟨h1, h2, h3⟩ := ht
+  have h3' : s.timerFc = _ := h3
+  have hcfg := h.base.cfg
+  have haddr := h.base.addr
+  have e1 := Fc.processTx_next_message s (reqFor S.c S.id S.p) [] h1 (h.pend.trans hp) (by rw [h.fc, hf]; rfl)
+    (by rw [h3']) h2 (hfr.not_depleted (by have := hS.p1; omega))
+  rw [allowed_eq h] at e1
+  have e2 := startTx_ff_exact ({ s with txQueue := [], active := some (reqFor S.c S.id S.p) } : State)
+    (reqFor S.c S.id S.p) noLimit S.p (by show s.cfg.valid = true; rw [hcfg]; exact hS.va) hfr.1 hfr.2 hS.p32
+    (by show NeedsFF (TxCfg.of s.cfg s.addr) _; rw [hcfg, haddr]; exact hff)
+    (by show ffRoom (TxCfg.of s.cfg s.addr) _ ≤ _; rw [hcfg, haddr]; simp [reqFor]; exact Nat.le_of_lt hlt)
+    (by show s.cfg.txDl ≤ noLimit; rw [hcfg]; exact (txDl_le_noLimit S.c S.a hS.va).1)
+  have hpl : ∀ n, pullLog (reqFor S.c S.id S.p) n = [] := by intro n; simp [pullLog, reqFor]
+  rw [e2] at e1
+  simp only [hpl, List.nil_append] at e1
+  unfold Fc.finish at e1
+  simp only [h.exc0, h.inform, Bool.false_eq_true, if_false] at e1
+  simp only [hcfg, haddr] at e1
+  rw [outMsg_ff hff 0]
+  refine ⟨_, e1, h.base.exc, ?_⟩
+  refine ⟨⟨rfl, rfl, h.base.standby, h.base.exc, h.base.rl⟩, ?_, h.rx, h.fc, h.pend, h.pstat, h.inbox, h.now,
+    h.out, h.noerr, h.done⟩
+  show TxRep S (.W 1 R) _
+  refine ⟨Nat.le_refl 1, rfl, ?_, ?_, carried_one_lt _ _ hvt hff, rfl, rfl, hff⟩
+  · show ({ start := some s.now, timeout := S.c.tFc } : Timer) = _
+    rw [h.now]
+  · show some (Req.adv (reqFor S.c S.id S.p) _) = some (reqAt S.c S.id S.p (S.car 1))
+    unfold Side.car; rw [carried_one _ _ hvt hff]; rfl
+
+theorem outMsg_sf (hsf : ¬ NeedsFF (TxCfg.of S.c S.a) S.p.length) :
+    S.outMsg (.dat 0) = wireSf S.c S.a (sfData S.c S.a S.p) := by
+  show dataMsg S.c S.a S.p 0 = _
+  unfold dataMsg; rw [if_neg hsf]
+
+/-- IDLE with a Single Frame request at the head of the queue: the frame goes out, the request completes -/
+theorem tx_sf (hS : SideOk S) (h : Rep S R al s) (htx : al.tx = .I) (hp : al.pend = false) (hf : al.fc = false)
+    (hn : S.par.n = 1) :
+    ∃ s', s.processTx = (s', some (S.outMsg (.dat 0)), false) ∧ s'.exc = none ∧
+      Rep S R { al with tx := .D, done := true } s' := by
+  have hsf : ¬ NeedsFF (TxCfg.of S.c S.a) S.p.length := fun hff => (needsFF_iff S.c S.a S.p hS.va).mp hff hn
+  have hfr := reqFor_fresh S.c S.id S.p
+  have ht := h.tx
+  rw [htx] at ht
+  obtain ⟨h1, h2, h3⟩ := ht
+  have h3' : s.timerFc = _ := h3
+  have hcfg := h.base.cfg
+  have haddr := h.base.addr
+  have e1 := Fc.processTx_next_message s (reqFor S.c S.id S.p) [] h1 (h.pend.trans hp) (by rw [h.fc, hf]; rfl)
+    (by rw [h3']) h2 (hfr.not_depleted (by have := hS.p1; omega))
+  rw [allowed_eq h] at e1
+  obtain ⟨d0, hseg, e2⟩ := startTx_sf_exact ({ s with txQueue := [], active := some (reqFor S.c S.id S.p) } : State)
+    (reqFor S.c S.id S.p) noLimit S.p (by show s.cfg.valid = true; rw [hcfg]; exact hS.va) hfr.1 hfr.2 hS.p1
+    (by simp [reqFor])
+    (by show sfShort (TxCfg.of s.cfg s.addr) _ ∨ sfEscape (TxCfg.of s.cfg s.addr) _
+        rw [hcfg, haddr]; exact not_ff_cases _ _ hsf)
+    (by show s.cfg.txDl ≤ noLimit; rw [hcfg]; exact (txDl_le_noLimit S.c S.a hS.va).1)
+  have hd0 : d0 = sfData S.c S.a S.p := by
+    have : segment (TxCfg.of s.cfg s.addr) S.p = [d0] := hseg
+    rw [hcfg, haddr, sf_segment S.c S.a S.p hsf] at this
+    simpa using this.symm
+  have hpl : ∀ n, pullLog (reqFor S.c S.id S.p) n = [] := by intro n; simp [pullLog, reqFor]
+  rw [e2] at e1
+  simp only [hpl, List.nil_append, stopSending, emit, Timer.stop] at e1
+  unfold Fc.finish at e1
+  simp only [h.exc0, h.inform, Bool.false_eq_true, if_false] at e1
+  simp only [hcfg, haddr, hd0] at e1
+  rw [outMsg_sf hsf]
+  refine ⟨_, e1, h.base.exc, ?_⟩
+  refine ⟨⟨rfl, rfl, rfl, h.base.exc, h.base.rl⟩, ?_, h.rx, h.fc, h.pend, h.pstat, h.inbox, h.now, ?_, ?_, ?_⟩
+  · show TxRep S .D _
+    refine ⟨rfl, rfl, ?_, rfl⟩
+    show ({ start := none, timeout := s.timerFc.timeout } : Timer) = _
+    rw [h3']
+  · show txsOf (.done _ true :: s.log) = _; rw [txsOf_done]; exact h.out
+  · exact NoErr_cons h.noerr (by intro t e h; cases h)
+  · intro _; exact List.mem_cons_self
+
+/-- WAIT_FC with the peer's ContinueToSend in the mailbox (N_Bs not expired): the pass goes on as a TRANSMIT_CF pass
+    with the announced block size and separation time in force, the STmin timer started now -/
+theorem tx_fc (hS : SideOk S) (h : Rep S R al s) {k r : Nat} (htx : al.tx = .W k r) (hp : al.pend = false)
+    (hf : al.fc = true) (hr : R - r ≤ S.kFc) :
+    ∃ s2, s.processTx = s2.processTx ∧ Rep S R { al with fc := false, tx := .T k 0 R } s2 := by
+  have ht := h.tx
+  rw [htx] at ht
+  obtain ⟨h1, h2, h3, h4, h5, h6, h7, hff⟩ := ht
+  have hst : s.txState = .waitFc := h2
+  have hlf : s.lastFc = some ⟨0, S.c'.blocksize, S.c'.stmin⟩ := by rw [h.fc, hf]; rfl
+  have hto : s.timerFc.timedOut s.now = false := fc_not_timedOut hS h hr h3
+  have hcts : Fc.ctsHonoured ({ s with lastFc := none } : State) ⟨0, S.c'.blocksize, S.c'.stmin⟩ = true := by
+    have : ({ s with lastFc := none } : State).timerFc.timedOut ({ s with lastFc := none } : State).now = false := hto
+    simp only [Fc.ctsHonoured, this]
+    simp [hst]
+  have e1 : Fc.afterFc s = (({ s with lastFc := none } : State).handleFc ⟨0, S.c'.blocksize, S.c'.stmin⟩, false) := by
+    unfold Fc.afterFc
+    simp only [hlf]
+    rfl
+  have e2 : ({ s with lastFc := none } : State).handleFc ⟨0, S.c'.blocksize, S.c'.stmin⟩ =
+      { s with lastFc := none, wftCnt := 0, timerFc := s.timerFc.stop, remoteBs := some S.c'.blocksize,
+               txState := .transmitCf, txBlockCnt := 0,
+               timerStmin := { start := some s.now,
+                               timeout := Fc.sepOf s.cfg ⟨0, S.c'.blocksize, S.c'.stmin⟩ } } := by
+    rw [Fc.handleFc_cts _ _ hcts]
+    simp [hst]
+  have e3 : (Fc.afterFc s).2 = false := by rw [e1]
+  have e4 := Fc.processTx_continue s (h.pend.trans hp) e3
+  rw [e1] at e4
+  simp only [] at e4
+  rw [e2, Fc.afterTimeout_of_not_timedOut (by rfl)] at e4
+  refine ⟨_, e4, ?_⟩
+  refine ⟨h.base' _ rfl rfl rfl rfl rfl, ?_, h.rx, rfl, h.pend, h.pstat, h.inbox, h.now, h.out, h.noerr, h.done⟩
+  show TxRep S (.T k 0 R) _
+  have h3' : s.timerFc = _ := h3
+  refine ⟨h1, rfl, ?_, h4, h5, h6, h7, rfl, rfl, ?_, hff⟩
+  · show s.timerFc.stop = _; rw [h3']; rfl
+  · show ({ start := some s.now, timeout := Fc.sepOf s.cfg ⟨0, S.c'.blocksize, S.c'.stmin⟩ } : Timer) = _
+    rw [h.now, h.base.cfg]; rfl
+
+theorem stmin_timedOut (hS : SideOk S) (h : Rep S R al s) {r : Nat}
+    (hts : s.timerStmin = { start := some (r * S.dt), timeout := effOf S.c S.c' }) :
+    s.timerStmin.timedOut s.now = (S.par.z || decide (r < R)) := by
+  rw [hts, h.now]
+  have hsep := hS.sep
+  show (decide (R * S.dt - r * S.dt > effOf S.c S.c') || (effOf S.c S.c' == 0)) = (decide (effOf S.c S.c' = 0) || decide (r < R))
+  by_cases hlt : r < R
+  · have h1 : 1 * S.dt ≤ (R - r) * S.dt := Nat.mul_le_mul_right _ (by omega)
+    rw [Nat.sub_mul] at h1
+    have : R * S.dt - r * S.dt > effOf S.c S.c' := by omega
+    simp [this, hlt]
+  · have h1 : R * S.dt ≤ r * S.dt := Nat.mul_le_mul_right _ (by omega)
+    have : ¬ (R * S.dt - r * S.dt > effOf S.c S.c') := by omega
+    simp only [this, hlt, decide_false, Bool.false_or, Bool.or_false]
+    by_cases h0 : effOf S.c S.c' = 0 <;> simp [h0]
+
+/-- TRANSMIT_CF while the separation time has not elapsed: nothing happens -/
+theorem tx_T_wait (hS : SideOk S) (h : Rep S R al s) {k j r : Nat} (htx : al.tx = .T k j r) (hp : al.pend = false)
+    (hf : al.fc = false) (hel : (S.par.z || decide (r < R)) = false) : s.processTx = (s, none, false) := by
+  have ht := h.tx
+  rw [htx] at ht
+  obtain ⟨h1, h2, h3, h4, h5, h6, h7, h8, h9, h10, hff⟩ := ht
+  have h3' : s.timerFc = _ := h3
+  have e1 : s.processTx = Fc.finish (s.transmitCf (Fc.allowedNow s)) :=
+    Fc.processTx_cf_pass s _ h2 (h.pend.trans hp) (by rw [h.fc, hf]; rfl) (by rw [h3']) h4
+      (reqAt_depleted S.c S.id S.p _ h5)
+  have hto : s.timerStmin.timedOut s.now = false := by rw [stmin_timedOut hS h h10]; exact hel
+  have e2 : s.transmitCf (Fc.allowedNow s) = (s, none, false) := by
+    have ha : s.active = _ := h4
+    have hb : s.remoteBs = _ := h8
+    unfold transmitCf
+    rw [hb, ha]
+    simp only [hto, Bool.false_eq_true, if_false]
+  rw [e1, e2, finish_eq _ _ _ h.base.exc h.base.rl]
+
+/-- what `transmitCf` does once the separation time has elapsed: frame `k` goes out -/
+theorem tx_T_core (hS : SideOk S) (h : Rep S R al s) {k j r : Nat} (htx : al.tx = .T k j r) (hp : al.pend = false)
+    (hf : al.fc = false) (hel : (S.par.z || decide (r < R)) = true) :
+    1 ≤ k ∧ S.car k < S.p.length ∧ NeedsFF (TxCfg.of S.c S.a) S.p.length ∧
+    s.processTx = Fc.finish (
+      if S.car (k + 1) = S.p.length then
+        (({ s with active := some (reqAt S.c S.id S.p (S.car (k + 1))), txSeq := (k + 1) % 16, txBlockCnt := j + 1,
+                   timerStmin := { start := some s.now, timeout := effOf S.c S.c' } } : State).stopSending true,
+          some (S.outMsg (.dat k)), false)
+      else if S.c'.blocksize ≠ 0 ∧ j + 1 ≥ S.c'.blocksize then
+        ({ s with active := some (reqAt S.c S.id S.p (S.car (k + 1))), txSeq := (k + 1) % 16, txBlockCnt := j + 1,
+                  timerStmin := { start := some s.now, timeout := effOf S.c S.c' },
+                  txState := .waitFc, timerFc := { start := some s.now, timeout := S.c.tFc } },
+          some (S.outMsg (.dat k)), true)
+      else
+        ({ s with active := some (reqAt S.c S.id S.p (S.car (k + 1))), txSeq := (k + 1) % 16, txBlockCnt := j + 1,
+                  timerStmin := { start := some s.now, timeout := effOf S.c S.c' } },
+          some (S.outMsg (.dat k)), false)) := by
+  have ht := h.tx
+  rw [htx] at ht
+  obtain ⟨h1, h2, h3, h4, h5, h6, h7, h8, h9, h10, hff⟩ := ht
+  refine ⟨h1, h5, hff, ?_⟩
+  have h3' : s.timerFc = _ := h3
+  have hcfg := h.base.cfg
+  have haddr := h.base.addr
+  have hvt := valid_of S.c S.a hS.va
+  have hstep := carried_step (TxCfg.of S.c S.a) S.p.length k h1 h5
+  have hroom := cfRoom_pos _ hvt
+  have e1 : s.processTx = Fc.finish (s.transmitCf (Fc.allowedNow s)) :=
+    Fc.processTx_cf_pass s _ h2 (h.pend.trans hp) (by rw [h.fc, hf]; rfl) (by rw [h3']) h4
+      (reqAt_depleted S.c S.id S.p _ h5)
+  rw [allowed_eq h] at e1
+  have hto : s.timerStmin.timedOut s.now = true := by rw [stmin_timedOut hS h h10]; exact hel
+  have hcons := reqAt_consumed S.c S.id S.p (S.car k)
+  have e2 := transmitCf_exact s noLimit S.p k (reqAt S.c S.id S.p (S.car k)) S.c'.blocksize
+    (by rw [hcfg]; exact hS.va) h4 h8 (reqAt_feeds S.c S.id S.p _ (Nat.le_of_lt h5)) h1
+    (by rw [hcons, hcfg, haddr]; rfl) (by rw [hcons]; exact h5) h6
+    (by rw [hcons, reqAt_src_length]; exact Nat.min_le_right _ _) hto
+    (by rw [hcfg, haddr]; exact (txDl_le_noLimit S.c S.a hS.va).2)
+  have hm : S.car k + min (cfRoom (TxCfg.of S.c S.a)) (S.p.length - S.car k) = S.car (k + 1) := by
+    unfold Side.car at *; omega
+  have hseq' : (k % 16 + 1) % 16 = (k + 1) % 16 := by omega
+  have hw : S.outMsg (.dat k) = frameMsg S.c S.a (S.a.tx.txId .physical) (cfData (TxCfg.of S.c S.a) S.p k) := by
+    rw [outMsg_ff hff k]
+    have : k ≠ 0 := by omega
+    simp [wireA, frameData, this]
+  have hseq : s.txSeq = k % 16 := h6
+  have hj : s.txBlockCnt = j := h9
+  have hts : s.timerStmin = _ := h10
+  have hcs : cfSent s (reqAt S.c S.id S.p (S.car k))
+      (min (cfRoom (TxCfg.of S.c S.a)) (S.p.length - S.car k)) =
+      { s with active := some (reqAt S.c S.id S.p (S.car (k + 1))), txSeq := (k + 1) % 16, txBlockCnt := j + 1,
+               timerStmin := { start := some s.now, timeout := effOf S.c S.c' } } := by
+    unfold cfSent
+    rw [reqAt_adv, pullLog_reqAt, hm]
+    simp [hseq, hseq', hj, hts, Timer.startAt]
+  rw [hcons, hcfg, haddr] at e2
+  rw [e1, e2]
+  have hc1 : carried (TxCfg.of S.c S.a) S.p.length (k + 1) = S.car (k + 1) := rfl
+  simp only [hc1, hcs, hj, hw]
+
+/-- TRANSMIT_CF once the separation time has elapsed: frame `k` goes out; then the message is complete, or the block
+    is complete (back to WAIT_FC, immediate receive pass requested), or the FSM stays in TRANSMIT_CF with the STmin
+    timer restarted -/
+theorem tx_T_emit (hS : SideOk S) (h : Rep S R al s) {k j r : Nat} (htx : al.tx = .T k j r) (hp : al.pend = false)
+    (hf : al.fc = false) (hel : (S.par.z || decide (r < R)) = true) :
+    ∃ s', s'.exc = none ∧
+      if k + 1 = S.par.n then
+        s.processTx = (s', some (S.outMsg (.dat k)), false) ∧ Rep S R { al with tx := .D, done := true } s'
+      else if S.par.bs' ≠ 0 ∧ j + 1 ≥ S.par.bs' then
+        s.processTx = (s', some (S.outMsg (.dat k)), true) ∧ Rep S R { al with tx := .W (k + 1) R } s'
+      else
+        s.processTx = (s', some (S.outMsg (.dat k)), false) ∧ Rep S R { al with tx := .T (k + 1) (j + 1) R } s' := by
+  obtain ⟨hk, hmore, hff, e⟩ := tx_T_core hS h htx hp hf hel
+  have hvt := valid_of S.c S.a hS.va
+  have hlast := last_iff _ hvt S.p hff k hk hmore
+  have ht := h.tx
+  rw [htx] at ht
+  obtain ⟨h1, h2, h3, h4, h5, h6, h7, h8, h9, h10, -⟩ := ht
+  have h3' : s.timerFc = _ := h3
+  have hle := carried_le (TxCfg.of S.c S.a) S.p.length (k + 1)
+  by_cases hl : k + 1 = S.par.n
+  · have hl' : S.car (k + 1) = S.p.length := hlast.mpr hl
+    rw [if_pos hl'] at e
+    simp only [stopSending, emit, Timer.stop, reqAt_id] at e
+    unfold Fc.finish at e
+    simp only [h.exc0, h.inform, Bool.false_eq_true, if_false] at e
+    refine ⟨s.processTx.1, by rw [e]; exact h.base.exc, ?_⟩
+    rw [if_pos hl, e]
+    refine ⟨rfl, ?_⟩
+    refine ⟨⟨h.base.cfg, h.base.addr, rfl, h.base.exc, h.base.rl⟩, ?_, h.rx, h.fc, h.pend, h.pstat, h.inbox, h.now,
+      ?_, ?_, ?_⟩
+    · show TxRep S .D _
+      refine ⟨rfl, h7, ?_, rfl⟩
+      show ({ start := none, timeout := s.timerFc.timeout } : Timer) = _
+      rw [h3']
+    · show txsOf (.done _ true :: s.log) = _; rw [txsOf_done]; exact h.out
+    · exact NoErr_cons h.noerr (by intro t e h; cases h)
+    · intro _; exact List.mem_cons_self
+  · have hl' : ¬ S.car (k + 1) = S.p.length := fun hh => hl (hlast.mp hh)
+    have hmore' : S.car (k + 1) < S.p.length := by unfold Side.car at *; omega
+    rw [if_neg hl'] at e
+    by_cases hb : S.par.bs' ≠ 0 ∧ j + 1 ≥ S.par.bs'
+    · have hb' : S.c'.blocksize ≠ 0 ∧ j + 1 ≥ S.c'.blocksize := hb
+      rw [if_pos hb'] at e
+      unfold Fc.finish at e
+      simp only [h.exc0, h.inform, Bool.false_eq_true, if_false] at e
+      refine ⟨s.processTx.1, by rw [e]; exact h.base.exc, ?_⟩
+      rw [if_neg hl, if_pos hb, e]
+      refine ⟨rfl, ?_⟩
+      refine ⟨h.base' _ rfl rfl rfl rfl rfl, ?_, h.rx, h.fc, h.pend, h.pstat, h.inbox, h.now, h.out, h.noerr, h.done⟩
+      show TxRep S (.W (k + 1) R) _
+      refine ⟨by omega, rfl, ?_, rfl, hmore', rfl, h7, hff⟩
+      show ({ start := some s.now, timeout := S.c.tFc } : Timer) = _
+      rw [h.now]
+    · have hb' : ¬ (S.c'.blocksize ≠ 0 ∧ j + 1 ≥ S.c'.blocksize) := hb
+      rw [if_neg hb'] at e
+      unfold Fc.finish at e
+      simp only [h.exc0, h.inform, Bool.false_eq_true, if_false] at e
+      refine ⟨s.processTx.1, by rw [e]; exact h.base.exc, ?_⟩
+      rw [if_neg hl, if_neg hb, e]
+      refine ⟨rfl, ?_⟩
+      refine ⟨h.base' _ rfl rfl rfl rfl rfl, ?_, h.rx, h.fc, h.pend, h.pstat, h.inbox, h.now, h.out, h.noerr, h.done⟩
+      show TxRep S (.T (k + 1) (j + 1) R) _
+      refine ⟨by omega, h2, h3, rfl, hmore', rfl, h7, h8, rfl, ?_, hff⟩
+      show ({ start := some s.now, timeout := effOf S.c S.c' } : Timer) = _
+      rw [h.now]
+
+/-- the state machine part of `_process_tx` is the abstract one -/
+theorem fsm_sim (hS : SideOk S) (h : Rep S R al s) (hp : al.pend = false) (hf : al.fc = false)
+    (hW : ∀ k r, al.tx = .W k r → R - r ≤ S.kFc) (al' : AL) (out : Option Fr) (imm : Bool)
+    (ha : absFsm S.par R al = some (al', out, imm)) :
+    ∃ s', s.processTx = (s', out.map S.outMsg, imm) ∧ s'.exc = none ∧ Rep S R al' s' := by
+  unfold absFsm at ha
+  split at ha
+  · next htx =>
+    split at ha
+    · next hn =>
+      simp only [Option.some.injEq, Prod.mk.injEq] at ha
+      obtain ⟨rfl, rfl, rfl⟩ := ha
+      exact tx_sf hS h htx hp hf hn
+    · next hn =>
+      simp only [Option.some.injEq, Prod.mk.injEq] at ha
+      obtain ⟨rfl, rfl, rfl⟩ := ha
+      exact tx_first hS h htx hp hf hn
+  · next k r htx =>
+    simp only [Option.some.injEq, Prod.mk.injEq] at ha
+    obtain ⟨rfl, rfl, rfl⟩ := ha
+    exact ⟨s, tx_W hS h htx hp hf (hW k r htx), h.base.exc, h⟩
+  · next k j r htx =>
+    split at ha
+    · next hel =>
+      obtain ⟨s', hexc, hs'⟩ := tx_T_emit hS h htx hp hf hel
+      split at ha
+      · next hl =>
+        simp only [Option.some.injEq, Prod.mk.injEq] at ha
+        obtain ⟨rfl, rfl, rfl⟩ := ha
+        rw [if_pos hl] at hs'
+        exact ⟨s', hs'.1, hexc, hs'.2⟩
+      · next hl =>
+        rw [if_neg hl] at hs'
+        split at ha
+        · next hb =>
+          simp only [Option.some.injEq, Prod.mk.injEq] at ha
+          obtain ⟨rfl, rfl, rfl⟩ := ha
+          rw [if_pos hb] at hs'
+          exact ⟨s', hs'.1, hexc, hs'.2⟩
+        · next hb =>
+          simp only [Option.some.injEq, Prod.mk.injEq] at ha
+          obtain ⟨rfl, rfl, rfl⟩ := ha
+          rw [if_neg hb] at hs'
+          exact ⟨s', hs'.1, hexc, hs'.2⟩
+    · next hel =>
+      simp only [Option.some.injEq, Prod.mk.injEq] at ha
+      obtain ⟨rfl, rfl, rfl⟩ := ha
+      have hel' : (S.par.z || decide (r < R)) = false := by simpa using hel
+      exact ⟨s, tx_T_wait hS h htx hp hf hel', h.base.exc, h⟩
+  · next htx =>
+    simp only [Option.some.injEq, Prod.mk.injEq] at ha
+    obtain ⟨rfl, rfl, rfl⟩ := ha
+    exact ⟨s, tx_D h htx hp hf, h.base.exc, h⟩
+
+/-- **one `_process_tx` call is one abstract step** -/
+theorem tx_sim (hS : SideOk S) (h : Rep S R al s) (al' : AL) (out : Option Fr) (imm : Bool)
+    (ha : absTx S.par R al = some (al', out, imm)) :
+    ∃ s', s.processTx = (s', out.map S.outMsg, imm) ∧ s'.exc = none ∧ Rep S R al' s' := by
+  unfold absTx at ha
+  split at ha
+  · next hp =>
+    split at ha
+    · next i t hrx =>
+      simp only [Option.some.injEq, Prod.mk.injEq] at ha
+      obtain ⟨rfl, rfl, rfl⟩ := ha
+      exact tx_pend hS h hp hrx
+    · cases ha
+  · next hp =>
+    have hp : al.pend = false := by simpa using hp
+    split at ha
+    · cases ha
+    next tx hm =>
+    unfold absMail at hm
+    split at hm
+    · next k r htx =>
+      split at hm
+      · next hr =>
+        have hr' : R - r ≤ S.kFc := hr
+        split at hm
+        · next hf =>
+          simp only [Option.some.injEq] at hm
+          subst hm
+          obtain ⟨s2, e, h2⟩ := tx_fc hS h htx hp hf hr'
+          rw [e]
+          exact fsm_sim hS h2 hp rfl (by intro k' r' hh; cases hh) al' out imm ha
+        · next hf =>
+          have hf : al.fc = false := by simpa using hf
+          simp only [Option.some.injEq] at hm
+          subst hm
+          have e : ({ al with fc := false, tx := .W k r } : AL) = al := by
+            cases al; simp_all
+          rw [e] at ha
+          exact fsm_sim hS h hp hf (by intro k' r' hh; rw [htx] at hh; cases hh; exact hr') al' out imm ha
+      · cases hm
+    · next t hnw =>
+      split at hm
+      · cases hm
+      next hf =>
+      have hf : al.fc = false := by simpa using hf
+      simp only [Option.some.injEq] at hm
+      subst hm
+      have e : ({ al with fc := false, tx := al.tx } : AL) = al := by
+        cases al; simp_all
+      rw [e] at ha
+      exact fsm_sim hS h hp hf (by intro k' r' hh; exact absurd hh (hnw k' r')) al' out imm ha
+
+end tx
 
 end Isotp.DuplexLive
